@@ -66,3 +66,10 @@ claim('C15', 'c15_mem.c',
       'malloc/calloc/strdup/realloc/free leave exactly one record per live block with its current address, last size, 20-character file name and line; realloc(NULL) allocates, '
       'realloc(p,0) frees, unknown pointers leave the table unchanged; the MALLOC/REALLOC/FREE/CALLOC macros behave alike with tracking compiled in and out.',
       'DESIGN.md section 4, C15')
+claim('C14', 'c14_url.c',
+      'CBMC check of URL parse/unparse: enumerated component-presence shapes and byte-class shapes, name-service lookup outcomes and port symbolic (stubs), exact-size input objects',
+      'For every valid presence pattern of the seven components (two length variants, delimiter-bearing characters inside password, path and query) parsing yields exactly the '
+      'components, unparse rebuilds the canonical text and re-parsing gives the same components; the port is filled from the service database exactly when a scheme but no port was given '
+      'and a usable service entry exists - for every outcome of every getprotobyname/getservbyname call (solver-decided). Every string up to the length bound over the byte classes '
+      '{: / ? @ alnum other} parses and unparses without a memory fault whatever the lookups return.',
+      'DESIGN.md section 4, C14')
